@@ -64,6 +64,24 @@ SnipClause(r, o) ==
   ELSE IF o.k = "snip" /\ o.ind THEN "caret"
   ELSE "end"
 
+\* k = "tmpl": a user template given as a list of parts (literal text or a field name), executed over
+\* ds; out = stdout.  The output is the concatenation, diagnostic by diagnostic, of the parts with the
+\* fields filled in verbatim.
+Piece(p, d) ==
+  CASE p.t = "lit" -> p.v
+    [] p.t = "line" -> ToString(d.line)
+    [] p.t = "col" -> ToString(d.col)
+    [] p.t = "file" -> d.file
+    [] p.t = "msg" -> d.msg
+    [] p.t = "kind" -> d.kind
+RECURSIVE TmplOne(_, _, _)
+TmplOne(parts, d, i) == IF i > Len(parts) THEN "" ELSE Piece(parts[i], d) \o TmplOne(parts, d, i + 1)
+RECURSIVE TmplAll(_, _, _)
+TmplAll(parts, ds, i) == IF i > Len(ds) THEN "" ELSE TmplOne(parts, ds[i], 1) \o TmplAll(parts, ds, i + 1)
+TmplVerdict(r) ==
+  IF r.fail # "" THEN "fails"
+  ELSE IF r.out = TmplAll(r.parts, r.ds, 1) THEN "ok" ELSE "template"
+
 SnipVerdict(r) ==
   IF r.pp.k = "panic" \/ r.tf.k = "panic" THEN "panic"
   ELSE IF r.pp.k \notin {"none", "snip"} \/ r.tf.k \notin {"none", "snip"} THEN "malformed"
@@ -76,6 +94,7 @@ PropVerdict(r) ==
   CASE r.k = "text" -> TextVerdict(r)
     [] r.k = "json" -> JsonVerdict(r)
     [] r.k = "snip" -> SnipVerdict(r)
+    [] r.k = "tmpl" -> TmplVerdict(r)
     [] OTHER -> "unknown"
 
 ModelOK(r) ==
